@@ -93,8 +93,8 @@ def comprehension(eng, e, st, kind):
         return as_loop(eng, e, gen, st, label)
     out = []
     for itv, s in eng.ev(gen.iter, st):
-        view = itv if isinstance(itv, SeqView) else eng.seq_of(s, itv)
-        out += _one(eng, e, gen, view, s, kind)
+        for view, s1 in eng.iter_sources(s, itv):
+            out += _one(eng, e, gen, view, s1, kind)
     return out
 
 
